@@ -224,7 +224,12 @@ func c20Call(l string, boundary bool) string {
 			return []reflect.Value{reflect.ValueOf(true)}
 		})
 		last.Call([]reflect.Value{cb})
-		if n == 1 && zeroItem && err != nil {
+		first := n
+		// "always returns the given error": iterating the sequence again delivers it again
+		last.Call([]reflect.Value{cb})
+		if n != 2*first {
+			shape = fmt.Sprintf("seq-events=%d-then-%d", first, n-first)
+		} else if n = first; n == 1 && zeroItem && err != nil {
 			shape = "errorSeq"
 		} else {
 			shape = fmt.Sprintf("seq-events=%d", n)
